@@ -91,7 +91,7 @@ PROPS = {
         "rule": "generated concurrent batches on one shared classifier under the Go race detector (invariant monitor) with result comparison against a sequential reference; see part rule",
         "assumptions": ["the Go scheduler is not owned by the harness: the race detector makes the verdict independent of the actual interleaving for the code paths executed, result equality under concurrency is sampled"],
         "timeout": {"quick": 600, "thorough": 3000},
-        "parts": [part("v2in", "TestVerif_C09", "concurrent-match", 12, 600, shards=(4, 8), race=True, prewrite=True, gomaxprocs=16)],
+        "parts": [part("v2in", "TestVerif_C09", "concurrent-match", 12, 600, shards=(4, 8), race=True, prewrite=True, gomaxprocs=16, timing_tolerant=True)],
     },
     "C10": {
         "rule": "structure-aware rapid generation (quick, thorough) and Go native coverage-guided fuzzing through four targets (thorough only) of byte inputs x thresholds in [0,1] x corpora (empty, empty documents, hostile documents, the input itself, full); oracle: no panic (recovered and reported with the input), no hang, public well-formedness predicate on every result",
